@@ -30,7 +30,7 @@ ASSUMPTIONS = [
     "L1: parameters and inputs are real: generic draws from VERIF_SEED, parameters perturbed by N(0, sigma^2) off initialisation; tolerance 2e-3 relative end to end (the same threshold locates the first diverging layer in the trace); a mismatch must repeat on two further inputs to be reported",
     "the group is the computed stabiliser of the model's filter banks (conv and upsample banks)",
     "signatures are restricted to type sets that are stable under the bank (every mid type reachable); group norm only for k<=1 (the library's documented limit)",
-    "L2: d=2 (quick: 2 cells in d=3; thorough: d=3 within 1 deviation); depth<=2, blocks<=2, downsamples<=2",
+    "L2: d=2 (quick: 2 cells in d=3; thorough: d=3 within 2 deviations); depth<=2, blocks<=2, downsamples<=2",
 ]
 
 TOL = 2e-3
@@ -55,7 +55,7 @@ def _dims(d):
 
 
 def bounds(tier):
-    return {"dims": _dims(2), "deviation_bound": {"quick": "1 + all (class x signature), (class x norm), (class x bias), (class x flags) pairs in d=2; 2 cells in d=3", "thorough": "2 in d=2, 1 in d=3"}[tier], "group": "computed stabiliser of the filter banks", "shifts": "all cyclic shifts (UNet: multiples of 2^downsamples + shift-by-one negative control)"}
+    return {"dims": _dims(2), "deviation_bound": {"quick": "1 deviation + every class x every single deviation of the other dimensions in d=2; 2 cells in d=3", "thorough": "3 in d=2, 2 in d=3"}[tier], "group": "computed stabiliser of the filter banks", "shifts": "all cyclic shifts (UNet: multiples of 2^downsamples + shift-by-one negative control)"}
 
 
 def _normalise(c):
@@ -78,16 +78,18 @@ def cases(tier, seed):
             out.append(dict(cell, d=d, dev=dev))
         base = {k: v[0] for k, v in dims.items()}
         for cls in dims["cls"]:
-            for key in ("sig", "norm", "bias", "flags"):
-                for val in dims[key]:
-                    out.append(dict(base, d=d, cls=cls, dev=2, **{key: val}))
+            for key in dims:  # every class x every single deviation of every other dimension
+                if key == "cls":
+                    continue
+                for val in dims[key][1:]:
+                    out.append(dict(base, d=d, cls=cls, dev=2 if cls != base["cls"] else 1, **{key: val}))
             out.append(dict(base, d=d, cls=cls, sig="svp", norm=True, dev=3))
         for cls in ("ResNet", "UNet"):
             out.append(dict({k: v[0] for k, v in _dims(3).items()}, d=3, cls=cls, dev=1))
     else:
-        for cell, dev in explore.cells(dims, 2):
+        for cell, dev in explore.cells(dims, 3):
             out.append(dict(cell, d=d, dev=dev))
-        for cell, dev in explore.cells(_dims(3), 1):
+        for cell, dev in explore.cells(_dims(3), 2):
             out.append(dict(cell, d=3, dev=dev + 1))
     out = [_normalise(c) for c in out]
     out = explore.dedupe(out, lambda c: repr(sorted(((k, v) for k, v in c.items() if k != "dev"), key=lambda kv: kv[0])))
@@ -227,6 +229,6 @@ def run_case(case, seed):
 
 CLAIM = {
     "text": "Every architecture cell within the deviation bound builds the real U-Net / ResNet / dilated ResNet / conv block in equivariant mode, perturbs all parameters off initialisation and is run for every element of the computed symmetry group and every admissible shift; equivariance is decided at the output against an independent reference action; a lock-step trace monitor over every intermediate layer output names the first diverging layer of a violation.",
-    "note": "L1 applies (real parameters/inputs: generic draws, 2e-3 tolerance, confirm rule). Quick tier: 1 deviation plus class x {signature, norm, bias, flags} pairs; thorough: 2 deviations.",
+    "note": "L1 applies (real parameters/inputs: generic draws, 2e-3 tolerance, confirm rule). Quick tier: 1 deviation plus class x every other single deviation; thorough: 3 deviations (d=3: 2).",
     "technique": "deviation-bounded exhaustive enumeration of architectures x all group elements x all admissible shifts with a lock-step trace invariant",
 }
